@@ -1,7 +1,7 @@
 //! An overlay file system combining two filesystems, an upper layer with read/write access and a lower layer with only read access
 
 use crate::error::VfsErrorKind;
-use crate::{FileSystem, SeekAndRead, SeekAndWrite, VfsMetadata, VfsPath, VfsResult};
+use crate::{FileSystem, SeekAndRead, SeekAndWrite, VfsFileType, VfsMetadata, VfsPath, VfsResult};
 use std::collections::HashSet;
 
 use std::time::SystemTime;
@@ -90,6 +90,44 @@ impl OverlayFS {
         }
         Err(VfsErrorKind::Other("Parent path does not exist".into()).into())
     }
+
+    /// Makes sure the entry that the union shows at `path` has a copy in the write layer
+    /// (with the timestamps of the original where the write layer can set them)
+    fn copy_up(&self, path: &str) -> VfsResult<VfsPath> {
+        let write_path = self.write_path(path)?;
+        let read_path = self.read_path(path)?;
+        if write_path.exists()? {
+            return Ok(write_path);
+        }
+        self.ensure_has_parent(path)?;
+        let metadata = read_path.metadata()?;
+        match metadata.file_type {
+            VfsFileType::Directory => write_path.create_dir()?,
+            VfsFileType::File => read_path.copy_file(&write_path)?,
+        }
+        if let Some(time) = metadata.created {
+            ignore_unsupported(write_path.set_creation_time(time))?;
+        }
+        if let Some(time) = metadata.modified {
+            ignore_unsupported(write_path.set_modification_time(time))?;
+        }
+        if let Some(time) = metadata.accessed {
+            ignore_unsupported(write_path.set_access_time(time))?;
+        }
+        Ok(write_path)
+    }
+}
+
+fn ignore_unsupported(result: VfsResult<()>) -> VfsResult<()> {
+    match result {
+        Err(err) if matches!(err.kind(), VfsErrorKind::NotSupported) => Ok(()),
+        other => other,
+    }
+}
+
+/// true if the setter failed because the write layer has no entry at the path
+fn missing_in_write_layer(result: &VfsResult<()>) -> bool {
+    matches!(result, Err(err) if matches!(err.kind(), VfsErrorKind::FileNotFound))
 }
 
 impl FileSystem for OverlayFS {
@@ -185,15 +223,30 @@ impl FileSystem for OverlayFS {
     }
 
     fn set_creation_time(&self, path: &str, time: SystemTime) -> VfsResult<()> {
-        self.write_path(path)?.set_creation_time(time)
+        let result = self.write_path(path)?.set_creation_time(time);
+        if missing_in_write_layer(&result) {
+            // the entry may live in a lower layer only: copy it up first
+            return self.copy_up(path)?.set_creation_time(time);
+        }
+        result
     }
 
     fn set_modification_time(&self, path: &str, time: SystemTime) -> VfsResult<()> {
-        self.write_path(path)?.set_modification_time(time)
+        let result = self.write_path(path)?.set_modification_time(time);
+        if missing_in_write_layer(&result) {
+            // the entry may live in a lower layer only: copy it up first
+            return self.copy_up(path)?.set_modification_time(time);
+        }
+        result
     }
 
     fn set_access_time(&self, path: &str, time: SystemTime) -> VfsResult<()> {
-        self.write_path(path)?.set_access_time(time)
+        let result = self.write_path(path)?.set_access_time(time);
+        if missing_in_write_layer(&result) {
+            // the entry may live in a lower layer only: copy it up first
+            return self.copy_up(path)?.set_access_time(time);
+        }
+        result
     }
 
     fn exists(&self, path: &str) -> VfsResult<bool> {
